@@ -9,3 +9,10 @@ package misc
 //@   requires i != nil
 //@   ensures-assumed [C15:A-PURE] result0 == expandF(mapvals(deref(i).Context), mapdom(deref(i).Context), iri) && result1 == expandErrF(mapvals(deref(i).Context), mapdom(deref(i).Context), iri)
 //@   ensures [C15:keywords-pass-through] true
+
+// A compact IRI prefix.local expands to the namespace bound to the prefix followed by the local name, nothing in between.
+//@ func (i *IriExpander) expandCompactIri(iri string) (string, error)
+//@   requires i != nil
+//@   requires-assumed [C02,C15:A-REGEXP-DOT] contains(iri, ".")
+//@   ensures [C02,C15:namespace-then-local-name] (has(deref(i).Context, beforeDot(iri)) && is(deref(i).Context[beforeDot(iri)], string)) ==> (result1 == nil && result0 == unbox(string, deref(i).Context[beforeDot(iri)]) + replaceAll(afterDot(iri), "\\/", "/"))
+//@   ensures [C02,C15:unknown-prefix-is-an-error] !(has(deref(i).Context, beforeDot(iri)) && is(deref(i).Context[beforeDot(iri)], string)) ==> (result1 != nil && result0 == iri)
